@@ -105,7 +105,14 @@ func tthammer(args []string) {
 						// writes' fields would be recognisable
 						tag := gi*100 + k
 						bound := search.Bound(tag % 2)
+						// plies of short and of long games (no game is longer than about 11 800 plies)
 						ply, depth := gr.Intn(4), gr.Intn(3)
+						switch gr.Intn(6) {
+						case 0:
+							ply = 250 + gr.Intn(12)
+						case 1:
+							ply = []int{511, 512, 1023, 1025, 4096, 11800}[gr.Intn(6)] + gr.Intn(3)
+						}
 						score := eval.HeuristicScore(eval.Pawns(tag))
 						if tag%5 == 0 {
 							score = eval.MateInXScore(int8(1 + tag%100))
